@@ -26,7 +26,7 @@ REAL = ['circuits.core.manager.Manager (fire/_fire/flush/tick/_dispatcher/_Event
         'circuits.core.handlers.handler', 'circuits.core.events.Event']
 STUBBED = ['handler tie-break order and task order (decided by the tape through Manager.getHandlers / _tasks seams)']
 ASSUMPTIONS = ['all components use channel "*"; handlers may override their channel (a/b) and events may be fired on explicit channels, also two at once: for those only the order and stop() clauses are judged (matching is C01\'s subject)', 'handlers are not generators; a handler may raise (after firing/stopping): the order and stop() clauses hold regardless']
-PROBES = ['fired-in-handler', 'nested-flush', 'nested-flush-new-pass', 'stop', 'mixed-priority-pass', 'tie-priority-handlers', 'fault:handler-raise', 'stop-then-raise', 'multi-channel-event']
+PROBES = ['fired-in-handler', 'nested-flush', 'nested-flush-new-pass', 'stop', 'mixed-priority-pass', 'tie-priority-handlers', 'fault:handler-raise', 'stop-then-raise', 'multi-channel-event', 'stop-then-refire-same-object']
 TIERS = {
     'quick': dict(runs=60000, wall=35, chunk=250, cfg=dict(max_events=40, max_ops=12)),
     'thorough': dict(runs=600000, wall=600, chunk=500, cfg=dict(max_events=120, max_ops=30)),
@@ -116,7 +116,7 @@ def run_one(ctx):
 
     def do_flush(comp, how, origin):
         st['flush_depth'] += 1
-        if st['flush_depth'] > 6:
+        if st['flush_depth'] > 6 or (st['flush_depth'] > 1 and st.get('no_nested')):
             st['flush_depth'] -= 1
             return
         newpass = model.flush_enter()
@@ -154,6 +154,9 @@ def run_one(ctx):
             eid = getattr(event, 'sim_id', None)
             if eid is None:
                 return
+            k = getattr(event, 'sim_seen', 1)
+            if k > 1:
+                eid = event.sim_more[k - 2]      # a later dispatch of an event object that was fired again
             st['inv'] += 1
             st['depth'] += 1
             ctx.log('H', eid, hid)
@@ -173,6 +176,24 @@ def run_one(ctx):
                         ctx.stat('stop')
                     elif act[0] == 'flush':
                         do_flush(self, 'flush', 'h%d' % hid)
+                    elif act[0] == 'stop-refire':
+                        # "not now, try again in a later pass": stop this dispatch and fire the SAME event object again
+                        if st['budget'] > 0 and len(meta[eid].get('channels', ())) <= 1 and getattr(event, 'sim_more', None) is None:
+                            st['budget'] -= 1
+                            event.stop()
+                            rec[2] = True
+                            ctx.stat('stop')
+                            ctx.stat('stop-then-refire-same-object')
+                            st['next_eid'] += 1
+                            e2 = st['next_eid']
+                            event.sim_more = [e2]
+                            event.sim_seen = 1
+                            meta[e2] = dict(name=meta[eid]['name'], prio=act[1], origin='h%d' % hid, prestopped=True, channels=meta[eid].get('channels', ()))
+                            st['no_nested'] = True      # keeps "which dispatch of the object is this" unambiguous for the handlers
+                            ctx.log('F', e2, meta[eid]['name'], act[1], 'refire-h%d' % hid)
+                            ctx.trace('  ' * st['depth'] + '  h%d stops e%d and fires the same object again as e%d prio=%r' % (hid, eid, e2, act[1]))
+                            model.fire(e2, act[1])
+                            self.fire(event, *meta[eid].get('channels', ()), priority=act[1])
                     elif act[0] == 'raise':
                         # the handler fails after what it did so far (a stop() it made still holds)
                         ctx.stat('fault:handler-raise')
@@ -199,7 +220,10 @@ def run_one(ctx):
     def gen_script():
         script = []
         for _ in range(ch.weighted([3, 4, 2, 1], 'script-len')):
-            k = ch.weighted([12, 2, 2, 1], 'act')
+            k = ch.weighted([24, 4, 4, 2, 1], 'act')
+            if k == 4:
+                script.append(('stop-refire', ch.choice(PRIOS, 'refire-prio')))
+                break
             if k == 0:
                 script.append(('fire', ch.choice(NAMES, 'fire-name'), ch.choice(PRIOS, 'fire-prio')))
             elif k == 1:
@@ -215,6 +239,10 @@ def run_one(ctx):
         @handler(priority=1e18, channel='*')
         def _sim_obs(self, event, *args, **kwargs):
             eid = getattr(event, 'sim_id', None)
+            if eid is not None and getattr(event, 'sim_more', None) is not None:
+                event.sim_seen = k = getattr(event, 'sim_seen', 0) + 1
+                if k > 1:
+                    eid = event.sim_more[k - 2]
             if eid is None and event.name == 'exception':
                 fe, fh = kwargs.get('fevent'), kwargs.get('handler')
                 pend = st['xmap'].get((getattr(fe, 'sim_id', None), int(fh.__name__[1:]) if fh is not None and fh.__name__[1:].isdigit() else None))
@@ -293,6 +321,8 @@ def run_one(ctx):
                 break
             hids = [h for h, _, _ in recs]
             chans = meta[eid].get('channels', ())
+            if meta[eid].get('prestopped'):
+                continue        # second dispatch of an object that carries stopped=True from its first dispatch: only the order is judged
             if len(chans) > 1:
                 # several channels: only the order and stop() clauses are judged (which handlers match, and how often, is C01's subject)
                 stops = [i for i, r in enumerate(recs) if r[2]]
